@@ -423,7 +423,7 @@ func writeEvidence(root string, res *runResult, seed int) error {
 		"known_findings":      res.known,
 		"known_findings_gone": res.gone,
 		"exhaustive":          true,
-		"notes":               res.notes,
+		"notes":               append(append([]string{}, res.notes...), w.Notes...),
 	}
 	ev := map[string]any{
 		"property_id": res.prop,
@@ -450,6 +450,9 @@ func writeEvidence(root string, res *runResult, seed int) error {
 func report(res *runResult, root string, verbose bool) int {
 	sort.SliceStable(res.violations, func(i, j int) bool { return res.violations[i].Key < res.violations[j].Key })
 	fmt.Printf("== %s tier=%s packages=%d functions=%d wall=%.1fs\n", res.prop, res.tier, res.world.NPkgs, res.world.NFuncs, res.wall)
+	for _, n := range res.world.Notes {
+		fmt.Println("NOTE:", n)
+	}
 	for _, s := range res.rules {
 		fmt.Printf("rule %-8s instances=%-4d discharged=%-4d violated=%d undecided=%d known=%d (min %d)\n", s.Rule, s.Instances, s.Discharged, s.Violated, s.Undecided, s.Known, s.Min)
 	}
